@@ -132,6 +132,11 @@ def run(f, fixture, rep, cfg, tier):
         elif c.decl.endswith("write_index"):
             inloop = any(c.bb in blks for (_h, blks) in hw.loops())
             seq.append(("entry*" if inloop else "entry", render(tw.term(c.args[0]))))
+        elif c.decl in ("std::iter::Iterator::try_for_each", "std::iter::Iterator::for_each"):
+            # `self.index_entries.iter().try_for_each(|e| e.write_index(out))`: one entry per element, like the loop
+            from common import per_element_calls
+            for (_c2, a0) in per_element_calls(f, hw, c, r"write_index$"):
+                seq.append(("entry*", a0 + "<Some>.0" if a0.startswith("std::iter::Iterator::next(") and not a0.endswith("<Some>.0") else a0))
         elif c.trait == "std::io::Write":
             seq.append((c.decl.rsplit("::", 1)[-1], render(tw.term(c.args[1])) if len(c.args) > 1 else ""))
     rep.check(seq == [("intro", "self.index_header"), ("entry*", "std::iter::Iterator::next(self.index_entries)<Some>.0"), ("write_all", "self.store")], "O3", "Header|write-structure",
@@ -150,6 +155,9 @@ def run(f, fixture, rep, cfg, tier):
         elif c.decl == "std::io::Write::write_all":
             seq.append(("bytes", render(tws.term(c.args[1]))))
     PADBUF = "std::vec::from_elem(0_u8, usize(rpm::headers::header::Header::<constants::IndexSignatureTag>::padding_required(self)))"
+    # the padding may also be the first padding_required(self) bytes of a fixed buffer (`ZEROES[..n]`; that it holds zeroes is C01.R6)
+    PADSLICE = r"std::ops::Index::index\(.*, std::ops::(RangeTo::RangeTo\{|Range::Range\{0_usize, )usize\(rpm::headers::header::Header::<constants::IndexSignatureTag>::padding_required\(self\)\)\}\)"
+    seq = [(k_, PADBUF if k_ == "bytes" and re.fullmatch(PADSLICE, v_) else v_) for (k_, v_) in seq]
     rep.check(seq == [("header", "self"), ("bytes", PADBUF)], "O5", "write_signature|structure", "write_signature = Header::write(self) + padding_required(self) zero bytes",
               "write_signature emits %s" % seq, ws.span)
     # the padding write is skipped only when the count is 0
@@ -219,7 +227,7 @@ def run(f, fixture, rep, cfg, tier):
 
     # ---- O8: the parse side keeps the size invariant too (C01.R5: the store is the whole declared data section) ----------
     rep.rule("O8", "a parsed header's store is the declared data section (C01.R5)")
-    rep.include("c01", f, fixture, cfg, tier, "O8", "parsed header store; writers emit every segment they count", only_rules={"R5", "R1"}, floor=2)
+    rep.include("c01", f, fixture, cfg, tier, "O8", "parsed header store; writers emit every segment they count; signature padding agrees between writer, reader and size", only_rules={"R5", "R1", "R6"}, floor=4)
 
 
 def check_invariant(f, rep, H, E):
